@@ -477,6 +477,18 @@ def contigs_with_alignments(af: pysam.AlignmentFile) -> FrozenSet[str]:
     return frozenset(has_alignments)
 
 
+def overlaps_region(alignment, start: int, end: Optional[int]) -> bool:
+    """
+    Return whether the alignment overlaps the (0-based, half-open) region, that is,
+    whether fetch(start=start, stop=end) returns it. end=None means up to the end.
+    """
+    alignment_end = alignment.reference_end
+    if alignment_end is None or alignment_end <= alignment.reference_start:
+        # No aligned bases (e.g., an unmapped read placed at its mate's position)
+        alignment_end = alignment.reference_start + 1
+    return alignment_end > start and (end is None or alignment.reference_start < end)
+
+
 def run_haplotag(
     variant_file,
     alignment_file,
@@ -613,9 +625,12 @@ def run_haplotag(
                 read_to_haplotype = None
 
             assert not include_unmapped or len(regions) == 1
-            for start, end in regions:
+            for i, (start, end) in enumerate(regions):
                 logger.debug("Working on %s:%s-%s", chrom, start, end)
                 for alignment in bam_reader.fetch(contig=chrom, start=start, stop=end):
+                    if any(overlaps_region(alignment, s, e) for s, e in regions[:i]):
+                        # Already written when that earlier region was processed
+                        continue
                     n_alignments += 1
                     haplotype_name = "none"
                     phaseset = "none"
